@@ -116,7 +116,7 @@ function printRef(e, sites) {
     case 'idx': { const o = R(e.o); return 'GET(' + o + ', ' + hoisted(e.i) + ')' }
     case 'call': return 'CALL(' + R(e.f) + ', [' + e.args.map(R).join(', ') + '])'
     case 'arr': return '[' + e.items.map((it) => (it.hole ? '' : it.spread ? '...SPREAD(' + R(it.spread) + ')' : R(it))).join(', ') + (e.items.length && e.items[e.items.length - 1].hole ? ',' : '') + ']'
-    case 'obj': return '({' + e.fields.map((f) => (f.spread ? '...' + R(f.spread) : f.short ? f.short + ': $.' + f.short : f.key + ': ' + R(f.value))).join(', ') + '})'
+    case 'obj': return '({' + e.fields.map((f) => (f.spread ? '...' + R(f.spread) : f.short ? '[' + JSON.stringify(f.short) + ']: $.' + f.short : f.key + ': ' + R(f.value))).join(', ') + '})'
     default: throw new Error('bad node ' + e.k)
   }
 }
